@@ -2,7 +2,7 @@
 (***************************************************************************)
 (* C02 / C16 at the value level: Python value -> (Representer) node graph  *)
 (* -> (Serializer) event stream -> [emitter, scanner, parser: the contract *)
-(* of C05, see ParseView] -> (Composer) node graph -> (Constructor) value.  *)
+(* of C05, see ViewTag] -> (Composer) node graph -> (Constructor) value.    *)
 (*                                                                         *)
 (* A state is one abstract Python value of the safe universe together with *)
 (* the dump options that matter at this level.  The value is a heap of     *)
@@ -191,6 +191,7 @@ RepItems(h, o, R, items, j, acc, best) ==
 \* represent_data
 RepData(h, o, R, v) ==
   IF v.id = 0                                            \* ignore_aliases(data): None, str, bytes, bool, int, float
+                                                         \* (and the empty tuple, which the universe does not contain)
   THEN RepScalar(o, [R EXCEPT !.akey = 0], ScalarTag(v.s), ScalarText(v.s), IF v.s \in BytesClasses THEN "lit" ELSE "")
   ELSE LET i == v.id IN
        IF R.rep[i] # 0 THEN [R EXCEPT !.akey = i, !.last = R.rep[i]]        \* seen before: the same node again
